@@ -647,6 +647,80 @@ def _handwritten_case(args):
     return cnt, out, nt
 
 
+MF_POOL = [("setup", "channel width", ("20.0", 20.0), ("30", 30.0)),
+           ("setup", "chip region", ("channel", "channel"),
+            ("reservoir", "reservoir")),
+           ("online_filter", "deform min", ("0.1", 0.1), ("0.2", 0.2)),
+           ("experiment", "run index", ("3", 3), ("4", 4))]
+
+
+def _multifile_case(args):
+    """Configuration(files=[a, b(, c)]): every key of every file is there,
+    converted to its documented type; where files disagree the later file
+    wins - per key, not per section.  All 16 x 16 assignments of a 4-key
+    pool (two keys share a section) to two files, and all 3-file
+    combinations in which each file holds one key of the shared section or
+    nothing."""
+    import itertools
+    import warnings
+    from dclab.rtdc_dataset.config import Configuration
+    scratch, = args
+    out = []
+    cnt = 0
+    d = scratch / f"c11_mf_{os.getpid()}"
+    d.mkdir(exist_ok=True)
+
+    def write(path, subset, which):
+        secs = {}
+        for i in subset:
+            sec, key, va, vb = MF_POOL[i]
+            secs.setdefault(sec, []).append((key, (va, vb)[which][0]))
+        path.write_text("".join(
+            f"[{sec}]\n" + "".join(f"{k} = {v}\n" for k, v in kv)
+            for sec, kv in secs.items()))
+    subsets = [tuple(i for i in range(4) if m >> i & 1) for m in range(16)]
+    plans = [((a, 0), (b, 1)) for a in subsets for b in subsets]
+    one = [(), (0,), (1,)]
+    plans += [((a, 0), (b, 1), (c, 0)) for a, b, c in
+              itertools.product(one, repeat=3)]
+    for plan in plans:
+        cnt += 1
+        paths = []
+        exp = {}
+        for n_, (subset, which) in enumerate(plan):
+            q = d / f"f{n_}.cfg"
+            write(q, subset, which)
+            paths.append(q)
+            for i in subset:
+                sec, key, va, vb = MF_POOL[i]
+                exp[(sec, key)] = (va, vb)[which][1]
+        case = {"kind": "multifile",
+                "plan": [[list(sub), w] for sub, w in plan]}
+        try:
+            with warnings.catch_warnings():
+                warnings.simplefilter("ignore")
+                cfg = Configuration(files=paths)
+            got = {(sec, key): cfg[sec][key] for sec, key, _, _ in MF_POOL
+                   if sec in cfg and key in cfg[sec]}
+            if got != exp or any(type(got[k]) is not type(exp[k])
+                                 for k in exp):
+                out.append(violation(
+                    "dclab.rtdc_dataset.config:Configuration.__init__",
+                    "files-not-merged", case,
+                    f"files holding {[[MF_POOL[i][1] for i in sub] for sub, _ in plan]}: "
+                    f"loaded {got}, expected {exp}",
+                    {"route": "multifile", "nfiles": len(plan),
+                     "missing": bool(set(exp) - set(got))}))
+        except BaseException as e:
+            out.append(violation(
+                "dclab.rtdc_dataset.config:Configuration.__init__",
+                "exception", case, f"{type(e).__name__}: {e}",
+                {"route": "multifile", "exc": type(e).__name__}))
+    import shutil
+    shutil.rmtree(d, ignore_errors=True)
+    return cnt, out, cnt
+
+
 def run(ctx):
     nch = 16
     res = par.pmap(_memory_case, [(c, nch) for c in range(nch)])
@@ -654,6 +728,7 @@ def run(ctx):
     res += par.pmap(_registry_history_case, [()])
     res += par.pmap(_copy_case, [()])
     res += par.pmap(_rewrite_case, [(ctx.scratch,)])
+    res += par.pmap(_multifile_case, [(ctx.scratch,)])
     res += par.pmap(_file_case, [(c, nch, ctx.scratch) for c in range(nch)])
     res += par.pmap(_handwritten_case, [(c, nch, ctx.scratch)
                                         for c in range(nch)])
@@ -702,6 +777,9 @@ def replay(case, ctx):
                 if v["case"] == case]
     if case["kind"] == "copy":
         return [v for v in _copy_case(())[1] if v["case"] == case]
+    if case["kind"] == "multifile":
+        return [v for v in _multifile_case((ctx.scratch,))[1]
+                if v["case"] == case]
     if case["kind"] == "registry":
         _, vs = _registry_history_case(())
         return [v for v in vs if v["case"] == case]
